@@ -291,6 +291,40 @@ func constantConditions(p *Program, fn *ssa.Function) (int, []Finding) {
 	return n, hits
 }
 
+// ignoredObservations: the result of an observer (a read-only predicate or measure) is used. A call
+// whose only purpose is its result and whose result is dropped is a check that was prepared and
+// lost (`p.IsInSubGroup()` on a line of its own).
+func ignoredObservations(p *Program, fn *ssa.Function) (int, []Finding) {
+	n := 0
+	var hits []Finding
+	for _, b := range fn.Blocks {
+		for _, in := range b.Instrs {
+			call, ok := in.(*ssa.Call)
+			if !ok {
+				continue
+			}
+			ob := observationOf(call)
+			if ob == nil || ob.name == "len" {
+				continue
+			}
+			n++
+			used := false
+			if call.Referrers() != nil {
+				for _, r := range *call.Referrers() {
+					if _, isDbg := r.(*ssa.DebugRef); !isDbg {
+						used = true
+					}
+				}
+			}
+			if !used {
+				hits = append(hits, Finding{fn, call.Pos(), "observation-used(" + ob.name + ")",
+					fmt.Sprintf("%s: the result of %s is dropped: the call has no effect, a test was prepared and lost", funcKey(fn), ob.name)})
+			}
+		}
+	}
+	return n, hits
+}
+
 func constCondLint(c *Ctx, p *Program, pkgPats ...string) {
 	rule := c.Prop + ".constcond"
 	n := 0
@@ -300,11 +334,14 @@ func constCondLint(c *Ctx, p *Program, pkgPats ...string) {
 		k, h := constantConditions(p, fn)
 		n += k
 		hits = append(hits, h...)
+		k, h = ignoredObservations(p, fn)
+		n += k
+		hits = append(hits, h...)
 	}
 	if n == 0 {
 		return // the property's packages test no observer: nothing to claim
 	}
-	c.Rule(rule, "CONSTANT CONDITION (belief contradiction): no branch tests an observer (IsZero, IsOne, BitLen, Sign, Cmp, len, ...) whose outcome is already fixed on every path to it — the same observation of the same unchanged object compared with itself, a predicate repeated on an unchanged object, IsZero after IsOne held. One arm of such a branch is dead: the special case it was written for is never taken", 0)
+	c.Rule(rule, "CONSTANT CONDITION (belief contradiction): no branch tests an observer (IsZero, IsOne, BitLen, Sign, Cmp, len, ...) whose outcome is already fixed on every path to it — the same observation of the same unchanged object compared with itself, a predicate repeated on an unchanged object, IsZero after IsOne held. One arm of such a branch is dead: the special case it was written for is never taken. And the result of every observer call is used (a predicate called on a line of its own is a test that was lost)", 0)
 	c.Instance(rule, n)
 	reportFindings(c, p, rule, nil, hits, "")
 	c.Ob(rule, "-", "-", "observer-conditions-scanned", "-", true, "")
@@ -394,4 +431,158 @@ func armIsDead(b *ssa.BasicBlock, k int) bool {
 		}
 	}
 	return true
+}
+
+// swallowedErrors: on the branch where a callee's error is known to be non-nil, a function that
+// itself returns an error does not return a nil error (the failure would be reported as success).
+func swallowedErrors(p *Program, fn *ssa.Function) (int, []Finding) {
+	res := fn.Signature.Results()
+	ei := -1
+	for i := 0; i < res.Len(); i++ {
+		if isErrorType(res.At(i).Type()) {
+			ei = i
+		}
+	}
+	if ei < 0 {
+		return 0, nil
+	}
+	n := 0
+	var hits []Finding
+	for _, b := range fn.Blocks {
+		if len(b.Instrs) == 0 {
+			continue
+		}
+		iff, ok := b.Instrs[len(b.Instrs)-1].(*ssa.If)
+		if !ok {
+			continue
+		}
+		a := atomOf(iff.Cond)
+		if a.Kind != "nilcmp" || !isErrorType(a.X.Type()) {
+			continue
+		}
+		// the value is the error result of a call (not a parameter or a sentinel comparison)
+		src := a.X
+		if ex, ok := src.(*ssa.Extract); ok {
+			src = ex.Tuple
+		}
+		if _, isCall := src.(*ssa.Call); !isCall {
+			continue
+		}
+		n++
+		// successor on which err != nil
+		k := 1
+		if a.Neg {
+			k = 0
+		}
+		t := b.Succs[k]
+		if len(t.Preds) != 1 {
+			continue
+		}
+		ret, ok := t.Instrs[len(t.Instrs)-1].(*ssa.Return)
+		if !ok || ei >= len(ret.Results) {
+			continue
+		}
+		if isNilConst(ret.Results[ei]) {
+			if reason, ok := swallowExceptions[fn.Name()+"|"+descValue(a.X, 0)]; ok && reason != "" {
+				continue
+			}
+			hits = append(hits, Finding{fn, ret.Pos(), "error-propagated(" + descValue(a.X, 0) + ")",
+				fmt.Sprintf("%s: on the branch where %s is non-nil the function returns a nil error: the failure is reported as success", funcKey(fn), descValue(a.X, 0))})
+		}
+	}
+	return n, hits
+}
+
+// swallowExceptions: (function | error value) pairs where returning nil on the error branch is not a
+// lost failure, with the reason (confirmed by reading).
+var swallowExceptions = map[string]string{
+	"NewSRS|Generator(4)#1": "kzg.NewSRS, benchmark shortcut for alpha = -1: fr.Generator(4) fails only for fields of 2-adicity < 2; every fr of the library has 2-adicity >= 28 (checked by C01.const against the generator tables), so the branch is unreachable",
+}
+
+// rotatedWithoutTemp (the broken swap): `o.f = g(o.h); o.h = g'(o.f)` — the second statement reads
+// the field the first has just overwritten, so both fields end up as functions of the old o.h and
+// the old o.f is lost. Recognised for fluent calls (destination receiver &o.f, operand &o.h) and
+// for plain assignments, when the two statements follow each other in one block with no other
+// access to o.f in between.
+func rotatedWithoutTemp(p *Program, fn *ssa.Function) (int, []Finding) {
+	type wr struct {
+		in   ssa.Instruction
+		dst  *ssa.FieldAddr
+		srcs []*ssa.FieldAddr
+	}
+	asFA := func(v ssa.Value) *ssa.FieldAddr {
+		if u, ok := v.(*ssa.UnOp); ok && u.Op == token.MUL {
+			v = u.X
+		}
+		fa, _ := v.(*ssa.FieldAddr)
+		return fa
+	}
+	n := 0
+	var hits []Finding
+	for _, b := range fn.Blocks {
+		var ws []wr
+		for _, in := range b.Instrs {
+			switch x := in.(type) {
+			case *ssa.Call:
+				cal := x.Call.StaticCallee()
+				if cal == nil || cal.Signature.Recv() == nil || len(x.Call.Args) < 2 {
+					continue
+				}
+				dst := asFA(x.Call.Args[0])
+				if dst == nil {
+					continue
+				}
+				// fluent: the callee returns its receiver type and writes it
+				if !types.Identical(x.Type(), x.Call.Args[0].Type()) {
+					continue
+				}
+				w := wr{in: in, dst: dst}
+				for _, a := range x.Call.Args[1:] {
+					if fa := asFA(a); fa != nil {
+						w.srcs = append(w.srcs, fa)
+					}
+				}
+				ws = append(ws, w)
+			case *ssa.Store:
+				dst := asFA(x.Addr)
+				if dst == nil {
+					continue
+				}
+				w := wr{in: in, dst: dst}
+				if fa := asFA(x.Val); fa != nil {
+					w.srcs = append(w.srcs, fa)
+				}
+				ws = append(ws, w)
+			}
+		}
+		for i := 0; i+1 < len(ws); i++ {
+			a, c := ws[i], ws[i+1]
+			n++
+			sameField := func(x, y *ssa.FieldAddr) bool { return x.Field == y.Field && sameObject(x.X, y.X) }
+			if sameField(a.dst, c.dst) {
+				continue
+			}
+			// a: o.f <- ... o.h ...   (not reading o.f itself)
+			readsH, readsF := false, false
+			for _, s := range a.srcs {
+				if sameField(s, c.dst) {
+					readsH = true
+				}
+				if sameField(s, a.dst) {
+					readsF = true
+				}
+			}
+			if !readsH || readsF {
+				continue
+			}
+			// c: o.h <- o.f only
+			if len(c.srcs) != 1 || !sameField(c.srcs[0], a.dst) {
+				continue
+			}
+			hits = append(hits, Finding{fn, c.in.Pos(), "rotation-through-temporary(" + fieldName(a.dst.X.Type(), a.dst.Field) + "," + fieldName(c.dst.X.Type(), c.dst.Field) + ")",
+				fmt.Sprintf("%s: %s is computed from %s and then %s is set from the new %s: the previous %s is overwritten before it is copied (a swap / rotation written without a temporary)",
+					funcKey(fn), fieldName(a.dst.X.Type(), a.dst.Field), fieldName(c.dst.X.Type(), c.dst.Field), fieldName(c.dst.X.Type(), c.dst.Field), fieldName(a.dst.X.Type(), a.dst.Field), fieldName(a.dst.X.Type(), a.dst.Field))})
+		}
+	}
+	return n, hits
 }
